@@ -17,7 +17,13 @@ Shape of the code that is mirrored here (one pass of the `while True` body):
     once per pass: the head of the outgoing queue, popped at most once, or the
     empty message) followed by the peer's stash; after the send the clock is
     read again and the per-branch bookkeeping (`book`) runs;
-  * `last_comms` / `last_attempt` setters clamp with `max(0, ·)`.
+  * `last_comms` / `last_attempt` setters clamp with `max(0, ·)`;
+  * (fix of F5) every device counts the resets it was asked for (`clear_last`
+    increments `resets`); the decision phase reads the counter *before* the
+    times and stores it in the `outlist` entry; a successful send is recorded
+    with `contacted(now, seen)`, which writes `last_comms` only if the counter
+    still has the value seen at the decision.  `bookOld` / `sendPeerOld` keep
+    the earlier unconditional `last_comms = now` for the counter-lemma.
 
 The generated counterparts (`Bobo.Gen.Modes.*`, translate/modes.py) of
 `selectMode`, `book`, `flagsOf`, the constants, the default periods, the
@@ -28,7 +34,9 @@ the definitions below in Props/C15.lean.
 1 timeout, 2 system error — the loop only tests `== 0`) and the clock reading
 taken right after that send.  `decidePhase`, `sendOne` and `onIncomingFlags`
 are exported separately so that C06/C07 can interleave other steps between
-them.
+them.  `passSmall` (end of file) is the same pass split into the steps that the
+device-manager lock makes atomic, with the listener's steps scheduled at any
+boundary between them (C07).
 -/
 namespace Bobo.Tcp
 
@@ -73,6 +81,7 @@ def Msg.empty {Rec : Type} : Msg Rec := ⟨[], [], []⟩
 structure Peer (Rec : Type) where
   lastComms   : Int
   lastAttempt : Int
+  resets      : Nat
   flagReset   : Bool
   stashC : List Rec
   stashH : List Rec
@@ -82,15 +91,19 @@ deriving Repr, DecidableEq
 variable {Rec : Type}
 
 /-- `BoboDeviceManager.__init__`. -/
-def Peer.init (flag : Bool) : Peer Rec := ⟨0, 0, flag, [], [], []⟩
+def Peer.init (flag : Bool) : Peer Rec := ⟨0, 0, 0, flag, [], [], []⟩
 
 /-- `last_comms` setter: `max(0, ·)`. -/
 def Peer.setLastComms (p : Peer Rec) (v : Int) : Peer Rec := { p with lastComms := max 0 v }
 /-- `last_attempt` setter: `max(0, ·)`. -/
 def Peer.setLastAttempt (p : Peer Rec) (v : Int) : Peer Rec := { p with lastAttempt := max 0 v }
 def Peer.setFlagReset (p : Peer Rec) (b : Bool) : Peer Rec := { p with flagReset := b }
-/-- `clear_last`. -/
-def Peer.clearLast (p : Peer Rec) : Peer Rec := { p with lastComms := 0, lastAttempt := 0 }
+/-- `clear_last`: both times to 0, one more reset counted. -/
+def Peer.clearLast (p : Peer Rec) : Peer Rec :=
+  { p with lastComms := 0, lastAttempt := 0, resets := p.resets + 1 }
+/-- `contacted(now, resets)`: record the contact unless a reset was counted since `seen` was read. -/
+def Peer.contacted (p : Peer Rec) (now : Int) (seen : Nat) : Peer Rec :=
+  if p.resets = seen then { p with lastComms := max 0 now } else p
 /-- `clear_stash`. -/
 def Peer.clearStash (p : Peer Rec) : Peer Rec := { p with stashC := [], stashH := [], stashU := [] }
 /-- `append_stash`. -/
@@ -113,13 +126,15 @@ def selectMode (cfg : Periods) (c a : Int) (qEmpty : Bool) (stash : Nat) : Optio
 def decideOne (cfg : Periods) (now : Int) (qEmpty : Bool) (p : Peer Rec) : Option MsgType :=
   selectMode cfg (now - p.lastComms) (now - p.lastAttempt) qEmpty p.sizeStash
 
-/-- the decision for one dict entry (`if d.urn == self._urn: continue`). -/
-def decideEntry (cfg : Periods) (self : String) (now : Int) (qEmpty : Bool) (e : String × Peer Rec) : Option MsgType :=
-  if e.1 = self then none else decideOne cfg now qEmpty e.2
+/-- the decision for one dict entry (`if d.urn == self._urn: continue`): the type and the reset
+counter read (before the times) at the decision. -/
+def decideEntry (cfg : Periods) (self : String) (now : Int) (qEmpty : Bool) (e : String × Peer Rec) :
+    Option (MsgType × Nat) :=
+  if e.1 = self then none else (decideOne cfg now qEmpty e.2).map (fun t => (t, e.2.resets))
 
-/-- decision phase: `outlist` as (index into the device dict, type), in dict order. -/
+/-- decision phase: `outlist` as (index into the device dict, (type, resets seen)), in dict order. -/
 def decidePhase (cfg : Periods) (self : String) (now : Int) (qEmpty : Bool) :
-    List (String × Peer Rec) → List (Nat × MsgType)
+    List (String × Peer Rec) → List (Nat × MsgType × Nat)
   | [] => []
   | e :: rest =>
     let tl := (decidePhase cfg self now qEmpty rest).map (fun it => (it.1 + 1, it.2))
@@ -147,23 +162,38 @@ def payload (t : MsgType) (snapshot cache : Msg Rec) (p : Peer Rec) : Msg Rec :=
 def clearFlagIfSent (flags : Nat) (p : Peer Rec) : Peer Rec :=
   if flags &&& FLAG_RESET = FLAG_RESET then p.setFlagReset false else p
 
-/-- per-branch post-send bookkeeping; `now` is the clock read after the send. -/
-def book (t : MsgType) (flags err : Nat) (now : Int) (cache : Msg Rec) (p : Peer Rec) : Peer Rec :=
+/-- per-branch post-send bookkeeping up to (not including) the final `d.last_attempt = now`;
+`now` is the clock read after the send, `seen` the reset counter read at the decision. -/
+def bookContact (t : MsgType) (flags err : Nat) (now : Int) (seen : Nat) (cache : Msg Rec) (p : Peer Rec) : Peer Rec :=
   match t with
-  | .resync =>
-    (if err = 0 then clearFlagIfSent flags (p.setLastComms now) else p).setLastAttempt now
-  | .ping =>
-    (if err = 0 then clearFlagIfSent flags (p.setLastComms now) else p).setLastAttempt now
+  | .resync => if err = 0 then clearFlagIfSent flags (p.contacted now seen) else p
+  | .ping => if err = 0 then clearFlagIfSent flags (p.contacted now seen) else p
   | .sync =>
-    (if err = 0 then clearFlagIfSent flags (p.clearStash.setLastComms now)
-     else p.appendStash cache.c cache.h cache.u).setLastAttempt now
+    if err = 0 then clearFlagIfSent flags (p.clearStash.contacted now seen)
+    else p.appendStash cache.c cache.h cache.u
+
+/-- per-branch post-send bookkeeping. -/
+def book (t : MsgType) (flags err : Nat) (now : Int) (seen : Nat) (cache : Msg Rec) (p : Peer Rec) : Peer Rec :=
+  (bookContact t flags err now seen cache p).setLastAttempt now
+
+/-- the bookkeeping before the fix of F5: `d.last_comms = now`, whatever happened since the decision. -/
+def bookContactOld (t : MsgType) (flags err : Nat) (now : Int) (cache : Msg Rec) (p : Peer Rec) : Peer Rec :=
+  match t with
+  | .resync => if err = 0 then clearFlagIfSent flags (p.setLastComms now) else p
+  | .ping => if err = 0 then clearFlagIfSent flags (p.setLastComms now) else p
+  | .sync =>
+    if err = 0 then clearFlagIfSent flags (p.clearStash.setLastComms now)
+    else p.appendStash cache.c cache.h cache.u
+
+def bookOld (t : MsgType) (flags err : Nat) (now : Int) (cache : Msg Rec) (p : Peer Rec) : Peer Rec :=
+  (bookContactOld t flags err now cache p).setLastAttempt now
 
 /-- everything one send-loop body does to its device, and what it hands to the wire. -/
-def sendPeer (t : MsgType) (snapshot cache : Msg Rec) (err : Nat) (clock : Int) (p : Peer Rec) :
+def sendPeer (t : MsgType) (seen : Nat) (snapshot cache : Msg Rec) (err : Nat) (clock : Int) (p : Peer Rec) :
     Peer Rec × Nat × Msg Rec :=
   let flags := flagsOf p
   let p1 := prep t p
-  (book t flags err clock cache p1, flags, payload t snapshot cache p1)
+  (book t flags err clock seen cache p1, flags, payload t snapshot cache p1)
 
 /-- one call of `_tcp_send` as seen from outside. -/
 structure Wire (Rec : Type) where
@@ -188,16 +218,16 @@ def fetch (t : MsgType) (cache : Option (Msg Rec)) (queue : List (Msg Rec)) : Op
   | _, c, q => (c, q)
 
 /-- one iteration of `for d, msg_type in outlist`. `outcome i` = (`_tcp_send` result, clock after the send). -/
-def sendOne (snapshot : Msg Rec) (outcome : Nat → Nat × Int) (st : SendSt Rec) (it : Nat × MsgType) : SendSt Rec :=
+def sendOne (snapshot : Msg Rec) (outcome : Nat → Nat × Int) (st : SendSt Rec) (it : Nat × MsgType × Nat) : SendSt Rec :=
   match st.peers[it.1]? with
   | none => st
   | some e =>
-    let f := fetch it.2 st.cache st.queue
-    let r := sendPeer it.2 snapshot (f.1.getD Msg.empty) (outcome it.1).1 (outcome it.1).2 e.2
+    let f := fetch it.2.1 st.cache st.queue
+    let r := sendPeer it.2.1 it.2.2 snapshot (f.1.getD Msg.empty) (outcome it.1).1 (outcome it.1).2 e.2
     { peers := st.peers.set it.1 (e.1, r.1), queue := f.2, cache := f.1,
-      wires := st.wires ++ [⟨it.1, it.2, r.2.1, r.2.2⟩] }
+      wires := st.wires ++ [⟨it.1, it.2.1, r.2.1, r.2.2⟩] }
 
-def sendPhase (snapshot : Msg Rec) (outcome : Nat → Nat × Int) (st : SendSt Rec) (outlist : List (Nat × MsgType)) : SendSt Rec :=
+def sendPhase (snapshot : Msg Rec) (outcome : Nat → Nat × Int) (st : SendSt Rec) (outlist : List (Nat × MsgType × Nat)) : SendSt Rec :=
   outlist.foldl (sendOne snapshot outcome) st
 
 /-- the instance: own urn, periods, outgoing queue, device dict (insertion order, own entry included). -/
@@ -222,11 +252,15 @@ def push (s : TState Rec) (m : Msg Rec) : TState Rec := { s with queue := s.queu
 def onIncomingFlags (flags : Nat) (p : Peer Rec) : Peer Rec :=
   if flags &&& FLAG_RESET = FLAG_RESET then p.clearLast else p
 
+/-- the listener's step on the device dict. -/
+def incomingPeers (peers : List (String × Peer Rec)) (j : Nat) (flags : Nat) : List (String × Peer Rec) :=
+  match peers[j]? with
+  | none => peers
+  | some e => peers.set j (e.1, onIncomingFlags flags e.2)
+
 /-- a message with flags `flags` from device index `j` has been handled by the listener. -/
 def incoming (s : TState Rec) (j : Nat) (flags : Nat) : TState Rec :=
-  match s.peers[j]? with
-  | none => s
-  | some e => { s with peers := s.peers.set j (e.1, onIncomingFlags flags e.2) }
+  { s with peers := incomingPeers s.peers j flags }
 
 /-! ### sequences of passes (sequential model: other threads act between passes) -/
 
@@ -256,5 +290,96 @@ def run (s : TState Rec) : List (Step Rec) → List (Obs Rec)
 def runState (s : TState Rec) : List (Step Rec) → TState Rec
   | [] => s
   | x :: xs => runState (step s x).1 xs
+
+/-! ### one pass in small steps (C07)
+
+The outgoing thread's pass, split at every access of a `BoboDeviceManager` that can interact with
+the listener thread (each access takes the device lock, so it is atomic; the listener's only
+writes to the fields modelled here are those of `clear_last`):
+
+  decision phase, per device `i` other than self, in dict order:
+      R(i) read `resets` ; C(i) read `last_comms` ; X(i) read `last_attempt`, queue-empty, stash size and decide
+  send phase, per `outlist` entry `(i, t, seen)`:
+      P(i) read `flag_reset`, pre-send mutation, build the payload ; the send itself (no lock held) ;
+      K(i) bookkeeping up to `contacted(now, seen)` / `append_stash` ; T(i) `last_attempt = now`
+
+`sched pt` is the list of messages `(device index, flags)` the listener handles at boundary `pt`. -/
+
+inductive Point where
+  | beforeResets (i : Nat)   -- before R(i)  (for the first device: before the pass)
+  | beforeComms (i : Nat)    -- between R(i) and C(i)
+  | beforeRest (i : Nat)     -- between C(i) and X(i)
+  | beforePre (i : Nat)      -- before P(i)  (after the decision phase / the previous entry)
+  | duringSend (i : Nat)     -- between P(i) and K(i): while `_tcp_send` runs
+  | beforeAttempt (i : Nat)  -- between K(i) and T(i)
+  | atEnd                    -- after the last step of the pass
+deriving Repr, DecidableEq
+
+def applyInc (peers : List (String × Peer Rec)) (evs : List (Nat × Nat)) : List (String × Peer Rec) :=
+  evs.foldl (fun ps ev => incomingPeers ps ev.1 ev.2) peers
+
+/-- R(i), C(i), X(i) for the device at index `i`, with the listener's steps in between. -/
+def decideSmall (cfg : Periods) (self : String) (now : Int) (qEmpty : Nat → Bool) (sched : Point → List (Nat × Nat))
+    (acc : List (String × Peer Rec) × List (Nat × MsgType × Nat)) (i : Nat) :
+    List (String × Peer Rec) × List (Nat × MsgType × Nat) :=
+  match acc.1[i]? with
+  | none => acc
+  | some e =>
+    if e.1 = self then acc else
+    let ps1 := applyInc acc.1 (sched (.beforeResets i))
+    match ps1[i]? with
+    | none => (ps1, acc.2)
+    | some e1 =>
+      let seen := e1.2.resets
+      let ps2 := applyInc ps1 (sched (.beforeComms i))
+      match ps2[i]? with
+      | none => (ps2, acc.2)
+      | some e2 =>
+        let lc := e2.2.lastComms
+        let ps3 := applyInc ps2 (sched (.beforeRest i))
+        match ps3[i]? with
+        | none => (ps3, acc.2)
+        | some e3 =>
+          match selectMode cfg (now - lc) (now - e3.2.lastAttempt) (qEmpty i) e3.2.sizeStash with
+          | some t => (ps3, acc.2 ++ [(i, t, seen)])
+          | none => (ps3, acc.2)
+
+/-- P(i), the send, K(i), T(i) for one `outlist` entry, with the listener's steps in between. -/
+def sendSmall (book? : Bool) (snapshot : Msg Rec) (outcome : Nat → Nat × Int) (sched : Point → List (Nat × Nat))
+    (st : SendSt Rec) (it : Nat × MsgType × Nat) : SendSt Rec :=
+  let ps0 := applyInc st.peers (sched (.beforePre it.1))
+  match ps0[it.1]? with
+  | none => { st with peers := ps0 }
+  | some e0 =>
+    let f := fetch it.2.1 st.cache st.queue
+    let cache := f.1.getD Msg.empty
+    let flags := flagsOf e0.2
+    let p1 := prep it.2.1 e0.2
+    let w : Wire Rec := ⟨it.1, it.2.1, flags, payload it.2.1 snapshot cache p1⟩
+    let ps1 := applyInc (ps0.set it.1 (e0.1, p1)) (sched (.duringSend it.1))
+    match ps1[it.1]? with
+    | none => { peers := ps1, queue := f.2, cache := f.1, wires := st.wires ++ [w] }
+    | some e1 =>
+      let pk := if book? then bookContact it.2.1 flags (outcome it.1).1 (outcome it.1).2 it.2.2 cache e1.2
+                else bookContactOld it.2.1 flags (outcome it.1).1 (outcome it.1).2 cache e1.2
+      let ps2 := applyInc (ps1.set it.1 (e1.1, pk)) (sched (.beforeAttempt it.1))
+      match ps2[it.1]? with
+      | none => { peers := ps2, queue := f.2, cache := f.1, wires := st.wires ++ [w] }
+      | some e2 =>
+        { peers := ps2.set it.1 (e2.1, e2.2.setLastAttempt (outcome it.1).2), queue := f.2, cache := f.1,
+          wires := st.wires ++ [w] }
+
+/-- one pass in small steps; `fixed = true` is the current code, `false` the bookkeeping before the
+fix of F5.  Returns the state, the wire log and the `outlist` of the pass. -/
+def passSmallG (fixed : Bool) (s : TState Rec) (now : Int) (qEmpty : Nat → Bool) (snapshot : Msg Rec)
+    (outcome : Nat → Nat × Int) (sched : Point → List (Nat × Nat)) :
+    TState Rec × List (Wire Rec) × List (Nat × MsgType × Nat) :=
+  let d := (List.range s.peers.length).foldl (decideSmall s.cfg s.self now qEmpty sched) (s.peers, [])
+  let st := d.2.foldl (sendSmall fixed snapshot outcome sched) ⟨d.1, s.queue, none, []⟩
+  ({ s with queue := st.queue, peers := applyInc st.peers (sched .atEnd) }, st.wires, d.2)
+
+def passSmall (s : TState Rec) (now : Int) (qEmpty : Nat → Bool) (snapshot : Msg Rec)
+    (outcome : Nat → Nat × Int) (sched : Point → List (Nat × Nat)) :=
+  passSmallG true s now qEmpty snapshot outcome sched
 
 end Bobo.Tcp
